@@ -205,17 +205,25 @@ Definition same_len (c : cols) : bool :=
   (match c_y c with Some y => Nat.eqb (length y) n | None => true end)
   && (match c_w c with Some w => Nat.eqb (length w) n | None => true end).
 
-(* Binner(x, y, weights).dohist(binsize=|nbin=, min=, max=, rev=True) [+ calc_stats()];
-   histogram(x, weights=, more=True, ...) is the same object without y *)
-Definition binner (patched : bool) (c : cols) (lo hi : option float) (m : mode) : result bout :=
+(* Binner(x, y, weights).dohist(binsize=|nbin=, min=, max=, rev=rv) [+ calc_stats()];
+   histogram(x, weights=, more=True, ...) is the same object without y.
+   Reverse indices exist (and with them the statistics) when rev is asked for or a second
+   variable or weights were given (util.py:163-164, 261-263, 368); otherwise only edges. *)
+Definition dorev (c : cols) (rv : bool) : bool :=
+  rv || (match c_y c with Some _ => true | None => false end)
+     || (match c_w c with Some _ => true | None => false end).
+
+Definition binner (patched : bool) (c : cols) (rv : bool) (lo hi : option float) (m : mode) : result bout :=
   if negb (same_len c) then Err EValue else
   match histogram EngC (c_x c) lo hi m with
   | Err e => Err e
   | Ok o =>
       let p := o_params o in
       let nhist := Z.of_nat (length (o_hist o)) in
-      Ok (mkBout (o_hist o) (o_rev o) (edges (p_dmin p) (p_bsize p) nhist)
-                 (calc_rows patched c nhist (o_rev o)))
+      if dorev c rv then
+        Ok (mkBout (o_hist o) (o_rev o) (edges (p_dmin p) (p_bsize p) nhist)
+                   (calc_rows patched c nhist (o_rev o)))
+      else Ok (mkBout (o_hist o) [] (edges (p_dmin p) (p_bsize p) nhist) [])
   end.
 
 (* ------------------------------------------------------------------ nperbin (util.py:198-256) *)
